@@ -9,8 +9,8 @@ Definition to_layers (ls : list lay) : list (layer QcF) :=
 Inductive case :=
 | Pinn (cid : nat) (layers : list lay) (a : QcF) (use_tin use_tout : bool) (oslice : option (nat * nat)) (inputs : list QcF) (obs : list QcF)
 | Spinn (cid : nat) (r m : nat) (nets : list (list lay)) (coords : list (list QcF)) (idxs : list (list nat)) (obs : list (list QcF))
-| Hyper (cid : nat) (hyper_layers : list lay) (eqp : list QcF) (a : QcF) (shapes : list (nat * nat)) (acts : list bool) (use_tin use_tout : bool) (inputs : list QcF) (obs : list QcF).
-Definition cid (c : case) := match c with Pinn i _ _ _ _ _ _ _ | Spinn i _ _ _ _ _ _ | Hyper i _ _ _ _ _ _ _ _ _ => i end.
+| Hyper (cid : nat) (hyper_layers : list lay) (eqp : list QcF) (a : QcF) (shapes : list (nat * nat)) (acts : list bool) (use_tin use_tout : bool) (oslice : option (nat * nat)) (inputs : list QcF) (obs : list QcF).
+Definition cid (c : case) := match c with Pinn i _ _ _ _ _ _ _ | Spinn i _ _ _ _ _ _ | Hyper i _ _ _ _ _ _ _ _ _ _ => i end.
 (* transforms used by the harness: input_transform = inputs * a ; output_transform = out + a * inputs[0] *)
 Definition tin (use : bool) (i : list QcF) (a : QcF) : list QcF := if use then map (fun x => (x * a)%K) i else i.
 Definition tout (use : bool) (i : list QcF) (o : val QcF) (a : QcF) : val QcF :=
@@ -31,11 +31,11 @@ Definition check (c : case) : bool :=
   | Spinn _ r m nets coords idxs obs =>
       let feats := map (fun p => map (fun x => mlp QcF (to_layers (fst p)) [x]) (snd p)) (combine nets coords) in
       forallb (fun t => qclose_list (map (spinn_entry QcF r feats (fst t)) (seq 0 m)) (snd t)) (combine idxs obs)
-  | Hyper _ hl eqp a shapes acts ti to inputs obs =>
+  | Hyper _ hl eqp a shapes acts ti to sl inputs obs =>
       let flat := mlp QcF (to_layers hl) eqp in
       let sizes := flat_map (fun s => [fst s * snd s; fst s]%nat) shapes in
       let inner := build shapes acts (split_sizes sizes flat) in
-      qclose_list (pinn_eval QcF (mlp QcF (to_layers inner)) (tin ti) (tout to) None inputs a) obs
+      qclose_list (pinn_eval QcF (mlp QcF (to_layers inner)) (tin ti) (tout to) sl inputs a) obs
   end.
 Definition summary (cases : list case) :=
   let bad := filter (fun c => negb (check c)) cases in (length cases, length bad, firstn 5 (map cid bad)).
